@@ -165,7 +165,8 @@ def python_entry_ok(ent, allow_keys):
         _, kind, sink = c.split()
         if sink == 'SinkInsensitive' or kind == 'KInt':
             return True
-    return (ent['file'], ent['func'], ent['text']) in allow_keys
+    return (ent['file'], ent['func'], ent['text']) in allow_keys \
+        or (ent['file'], '*', ent['text']) in allow_keys
 
 
 def run_audit(res):
@@ -518,6 +519,45 @@ def _sweep(res, tier, seed, rng, scratch):
                                          f'{r["worker_error"]}')
                 else:
                     fresh_res[(k, hs)] = r
+    # extra hash seeds for the decks whose output is keyed by strings in
+    # several places (regression decks, both kinds of boundary condition):
+    # an order that depends on the seed flips only for some seeds
+    n_extra = 12 if quick else 24
+    extra_seeds = [rng.randrange(4294967296) for _ in range(n_extra)]
+    subset = [k for k, job in enumerate(jobs)
+              if job['tags'][0] == 'regression' or 'bc-both' in job['tags']]
+    subset = subset[:24 if quick else 120]
+    res.extra['sweep']['extra_hash_seeds'] = extra_seeds
+    res.extra['sweep']['decks_under_extra_seeds'] = len(subset)
+
+    def fresh_extra(hs):
+        out, err = run_worker([strip_job(jobs[k]) for k in subset], hs,
+                              scratch, f'x{hs}', fork_each=True)
+        return hs, out, err
+
+    with ThreadPoolExecutor(max_workers=12) as pool:
+        for hs, out, err in pool.map(fresh_extra, extra_seeds):
+            if out is None:
+                worker_errors.append(f'extra seed {hs}: {err[-300:]}')
+                continue
+            for k, r in zip(subset, out):
+                ref = fresh_res.get((k, hashseeds[0]))
+                if ref is None or 'worker_error' in r:
+                    continue
+                res.count('fresh:extra-seed')
+                if outcome(r) != outcome(ref):
+                    res.violation(
+                        'impl-violation',
+                        f'output depends on the hash seed: PYTHONHASHSEED='
+                        f'{hashseeds[0]} gives {outcome(ref)}, PYTHONHASHSEED='
+                        f'{hs} gives {outcome(r)} (deck {jobs[k]["tags"]}, '
+                        f'args {jobs[k]["args"]})',
+                        {'input': {'deck': jobs[k]['deck'],
+                                   'args': jobs[k]['args'],
+                                   'encoding': jobs[k].get('encoding',
+                                                           'utf-8'),
+                                   'hashseeds': [hashseeds[0], hs]}},
+                        found_input=True)
     n_fresh = len(fresh_res)
     res.obligation(f'sweep: {n_fresh} fresh-process conversions ran '
                    f'({len(jobs)} decks x {len(hashseeds)} hash seeds, forked '
@@ -707,12 +747,15 @@ def model_tie(res, tier, rng, jobs, fresh_res, hashseeds):
     histories, current = [], []
     n_cases = n_in = n_warm_mismatch = 0
     size_budget = 0
-    cover = c18_cover.Coverage()
+    try:
+        cover = c18_cover.Coverage()
+    except Exception:       # pylint: disable=broad-except
+        cover = None
     for k in order:
         if n_cases >= limit:
             break
         job = jobs[k]
-        if job['tags'][0] == 'regression':
+        if job['tags'][0] == 'regression' and cover is not None:
             with cover:
                 conv, cap, expected = observe(job)
         else:
@@ -780,15 +823,19 @@ def model_tie(res, tier, rng, jobs, fresh_res, hashseeds):
             current, size_budget = [], 0
     if current:
         histories.append(current)
-    total, missing, _stale = cover.report()
-    res.obligation(f'coverage: every executable line of the {len(c18_cover.target_functions())} '
-                   f'modelled functions ({total} lines) is executed by a tied '
-                   f'regression deck, except {len(c18_cover.UNREACHED)} '
-                   'listed unreachable lines', not missing,
-                   '; '.join(f'{f}: {t}' for f, t in missing[:6]))
-    # (an obligation only: a behaviour-preserving rewrite that adds a line no
-    # deck reaches must not be reported as a violation)
-    res.extra['coverage_missing'] = [list(m) for m in missing]
+    # line coverage of the modelled functions: information only, never fails
+    try:
+        total, missing, _stale = cover.report()
+        res.obligation(f'coverage: every executable line of the '
+                       f'{len(cover.targets)} modelled code objects ({total} '
+                       'lines) is executed by a tied regression deck, except '
+                       f'{len(c18_cover.UNREACHED)} listed unreachable lines',
+                       not missing,
+                       '; '.join(f'{f}: {t}' for f, t in missing[:6]))
+        res.extra['coverage_missing'] = [list(m) for m in missing]
+        res.extra['coverage_functions_not_present'] = list(c18_cover.MISSING)
+    except Exception as exc:    # pylint: disable=broad-except
+        res.extra['coverage_error'] = repr(exc)
     cases = [clist(c for c, _ in hist) for hist in histories]
     bad, errs = common.run_case_files(
         'c18_hist', TIE_HEADER,
